@@ -8,7 +8,7 @@
    with yrx_scanner_set_module_output is consumed by the next whole-buffer scan
    inside the library; globals persist.  Both set_module_* calls are refused
    (YRX_INVALID_STATE) once the scanner is in block mode; block scans run no
-   module, so they observe neither data nor output.
+   module main (the model makes no claim about module functions there).
 
    One module (cuckoo) carries data in the harness, so the pending data is an
    [option N] (which report); 0 = nothing observed.  Definitions only. *)
@@ -66,9 +66,13 @@ Definition pstep_ok (s : pstate) (st : pstep) : bool :=
   | PScanStep k inv d o g =>
       let '(inv', d', o') := scan_obs s k in
       Bool.eqb inv inv' &&
-      (inv || (N.eqb d d' && N.eqb o o' &&
-              (* yrx_scanner_scan_block yields no verdicts: nothing to observe *)
-              (N.eqb g (p_glob s) || match k with KScanBlock => true | _ => false end)))
+      (inv ||
+       if whole_buffer k then N.eqb d d' && N.eqb o o' && N.eqb g (p_glob s)
+       else
+         (* block scans run no module main: what the module functions return there (state left by
+            earlier scans) is the subject of C04/C14, not of the C wrappers; scan_block yields no
+            verdicts at all, finish shows the global *)
+         match k with KFinish => N.eqb g (p_glob s) | _ => true end)
   end.
 Definition pstep_next (s : pstate) (st : pstep) : pstate :=
   match st with
